@@ -19,6 +19,7 @@ EXC = {
     "KeyboardInterrupt": KeyboardInterrupt,
     "ZeroDivisionError": ZeroDivisionError,
     "RuntimeError": RuntimeError,
+    "RecursionError": RecursionError,
 }
 
 DEFAULT_KNOBS = {
@@ -75,6 +76,7 @@ class World:
         self.events = []  # seam events of the op being executed
         self.warnings = []  # (category, text) of the op being executed
         self.plan = None  # fault / peer plan of the solve being executed
+        self.compile_count = 0
         self.cb_count = 0  # callback events within the current solve
         self.entry_count = 0  # solver entries within the current solve
         self.fired = []  # faults / peer behaviours that actually fired in this op
@@ -102,6 +104,15 @@ class World:
             ss.time = clock
         if hasattr(ls, "time"):
             ls.time = clock
+        # compile entry points (imported by the solver functions at call time): transparent unless
+        # the plan of the solve being executed asks for a fault at the k-th compile call
+        import optyx.core.autodiff as ad
+        import optyx.core.compiler as comp
+
+        for mod, name in ((comp, "compile_expression"), (ad, "compile_jacobian"), (ad, "compile_hessian")):
+            real = getattr(mod, name, None)
+            if real is not None:
+                setattr(mod, name, self._wrap_compile(real, name))
         self._apply_knobs()
         warnings.resetwarnings()
         warnings.simplefilter("always")
@@ -181,6 +192,7 @@ class World:
         self.warnings = []
         self.fired = []
         self.plan = plan
+        self.compile_count = 0
         self.cb_count = 0
         self.entry_count = 0
         self.cb_by_kind = {}
@@ -209,6 +221,23 @@ class World:
                     {"fault": "cb", "k": f["k"], "kind": kind, "exc": f["exc"], "seq": self.seq}
                 )
                 raise EXC[f["exc"]](f"injected {f['exc']} at callback {f['k']} ({kind})")
+
+    def _wrap_compile(self, real, name):
+        import functools
+
+        @functools.wraps(real)
+        def wrapped(*a, **k):
+            p = self.plan
+            if p and "fault" in p and p["fault"]["site"] == "compile":
+                self.compile_count += 1
+                f = p["fault"]
+                if self.compile_count == f["k"]:
+                    self._tick(2.0 ** -13)
+                    self.fired.append({"fault": "compile", "k": f["k"], "kind": name, "exc": f["exc"], "seq": self.seq})
+                    raise EXC[f["exc"]](f"injected {f['exc']} at compile call {f['k']} ({name})")
+            return real(*a, **k)
+
+        return wrapped
 
     def _peer_for(self, entry):
         p = self.plan or {}
